@@ -50,6 +50,7 @@ struct ExecCfg {
     const std::vector<CpuModel> *grid = nullptr;   // models for cpu index >= 3
     bool use_junk_regs = false;
     bool strip_injected = false;    // skip ops flagged F_INJECTED (C14 differential)
+    bool allow_odd = false;         // C06: also execute calls that return 1 but have no model (set_tweak on a CTR object whose key was set without a tweak): every back end must still agree.  Data before any key stays excluded (caller error; the scalar decryptor forms a pointer before the schedule array then)
 };
 
 struct SlotState {
